@@ -19,7 +19,7 @@ from .errors import (
 )
 from .tokens.operator import Operator
 from .tokens.function import Function
-from .tokens.operand import Operand
+from .tokens.operand import Operand, Empty
 from .functions import wrap_ranges_func, COMPILING
 from .ranges import Ranges
 from schedula.utils.utl import get_unused_node_id
@@ -59,6 +59,9 @@ class AstBuilder:
                 tokens = [self.pop() for _ in range(token.get_n_args)][::-1]
             except IndexError:
                 raise FormulaError()
+            if isinstance(token, Operator) and any(
+                    isinstance(t, Empty) for t in tokens):
+                raise FormulaError()  # An omitted argument is not an operand.
             token.update_input_tokens(*tokens)
             inputs = [self.get_node_id(i) for i in tokens]
             token.set_expr(*tokens)
